@@ -1,7 +1,9 @@
 ------------------------------- MODULE SelectTrace -------------------------------
 (* Trace validation for row / column selection.  One ndjson line per open handle:   *)
-(*   {"id": k, "n": rows in the stored table,                                       *)
+(*   {"id": k, "n": rows in the stored table, "nc": its number of columns,          *)
 (*    "ev": [{"q": <request>, "o": <observation>}, ...]}   in the order executed    *)
+(* An observation carries the original row numbers written out ("rows") or, for a    *)
+(* long table, in run-length form ("runs": [[first, step, count], ...]).             *)
 (* The handle state machine of Select.tla is stepped through the events: Open,       *)
 (* then one HRead per event; every observation must be accepted by the property      *)
 (* level spec in the state the handle is in (which - this is the point - depends on  *)
@@ -26,7 +28,7 @@ RunFrom(hd, ev, k) ==
     IF k > Len(ev) THEN {}
     ELSE {<<k, cl>> : cl \in HFailing(hd, ev[k].q, ev[k].o)} \cup RunFrom(HRead(hd, ev[k].q), ev, k + 1)
 
-FailingRec(r) == RunFrom(HOpen(r.n), r.ev, 1)
+FailingRec(r) == RunFrom(HOpenT(r.n, r.nc), r.ev, 1)
 
 Check == tid > 0 =>
     LET r == Traces[tid]  f == FailingRec(r)
